@@ -46,7 +46,7 @@ fn tokens(rng: &mut Rng, lit: &mut String) -> usize {
 }
 
 macro_rules! numtype {
-    ($ctx:expr, $rng:expr, $t:ty, $name:literal, $cmp:expr, $mk:expr) => {{
+    ($ctx:expr, $rng:expr, $t:ty, $name:literal, $cmp:expr, $mk:expr, $tmin:expr, $tmax:expr) => {{
         let ctx: &mut Ctx = $ctx;
         let rng: &mut Rng = $rng;
         bump(ctx, 1);
@@ -145,6 +145,35 @@ macro_rules! numtype {
             if !same(&r2, &want2) {
                 ctx.violation(&format!("C17:finish_with-differs:{}", kind), detail(&format!("finish_with={:?} expected={:?}", r2.as_ref().map_err(|e| e.get_code()), want2)));
             }
+            // bounds left at the data type's limits (`build()` without `.max()` and/or `.min()`), and the other
+            // setter order (`NumericBuilder` itself cannot be named outside the crate)
+            let (tmin, tmax): ($t, $t) = ($tmin, $tmax);
+            let want_for = |lo: $t, hi: $t| -> Result<$t, i16> {
+                match v {
+                    NumericValue::Maximum => Ok(hi),
+                    NumericValue::Minimum => Ok(lo),
+                    NumericValue::Default | NumericValue::Up | NumericValue::Down => Err(-224),
+                    NumericValue::Value(x) => if x >= lo && x <= hi { Ok(x) } else { Err(-222) },
+                }
+            };
+            let variants: [(&str, Result<$t, Error>, $t, $t); 4] = [
+                ("build-only", v.build().finish(), tmin, tmax),
+                ("max-only", v.build().max(hi).finish(), tmin, hi),
+                ("min-only", v.build().min(lo).finish(), lo, tmax),
+                ("min-then-max", v.build().min(lo).max(hi).finish(), lo, hi),
+            ];
+            for (vname, got, l, h) in variants.iter() {
+                let w = want_for(*l, *h);
+                ctx.count(&format!("resolve.builder.{}", vname));
+                if !same(got, &w) {
+                    ctx.violation(&format!("C17:resolution-differs:builder-{}:{}", vname, kind), detail(&format!("finish={:?} expected={:?} (bounds {:?}..{:?})", got.as_ref().map_err(|e| e.get_code()), w, l, h)));
+                }
+                if let Ok(x) = got {
+                    if !(*x >= *l && *x <= *h) {
+                        ctx.violation("C17:resolved-value-outside-bounds", detail(&format!("{:?} (builder {})", x, vname)));
+                    }
+                }
+            }
             // the invariant of the statement, checked on its own
             for res in [&r, &r2] {
                 if let Ok(x) = res {
@@ -161,20 +190,20 @@ pub fn run(cfg: &Cfg, rep: &mut Report) {
     let n = cfg.n(200, 20_000_000, 1_200_000_000);
     run_cases(cfg, "numeric_value", n, rep, |rng, ctx| {
         match ctx.index % 14 {
-            0 => numtype!(ctx, rng, u8, "u8", |a: &u8, b: &u8| a == b, |x: f64| x.abs().min(255.0) as u8),
-            1 => numtype!(ctx, rng, i8, "i8", |a: &i8, b: &i8| a == b, |x: f64| x.clamp(-128.0, 127.0) as i8),
-            2 => numtype!(ctx, rng, u16, "u16", |a: &u16, b: &u16| a == b, |x: f64| x.abs() as u16),
-            3 => numtype!(ctx, rng, i16, "i16", |a: &i16, b: &i16| a == b, |x: f64| x as i16),
-            4 => numtype!(ctx, rng, u32, "u32", |a: &u32, b: &u32| a == b, |x: f64| x.abs() as u32),
-            5 => numtype!(ctx, rng, i32, "i32", |a: &i32, b: &i32| a == b, |x: f64| x as i32),
-            6 => numtype!(ctx, rng, u64, "u64", |a: &u64, b: &u64| a == b, |x: f64| x.abs() as u64),
-            7 => numtype!(ctx, rng, i64, "i64", |a: &i64, b: &i64| a == b, |x: f64| x as i64),
-            8 => numtype!(ctx, rng, usize, "usize", |a: &usize, b: &usize| a == b, |x: f64| x.abs() as usize),
-            9 => numtype!(ctx, rng, isize, "isize", |a: &isize, b: &isize| a == b, |x: f64| x as isize),
-            10 => numtype!(ctx, rng, f32, "f32", |a: &f32, b: &f32| a.to_bits() == b.to_bits(), |x: f64| x as f32),
-            11 => numtype!(ctx, rng, f64, "f64", |a: &f64, b: &f64| a.to_bits() == b.to_bits(), |x: f64| x),
-            12 => numtype!(ctx, rng, Time, "Time<f32>", |a: &Time, b: &Time| a.value.to_bits() == b.value.to_bits(), |x: f64| Time::new::<second>(x as f32)),
-            _ => numtype!(ctx, rng, Frequency, "Frequency<f32>", |a: &Frequency, b: &Frequency| a.value.to_bits() == b.value.to_bits(), |x: f64| Frequency::new::<hertz>(x as f32)),
+            0 => numtype!(ctx, rng, u8, "u8", |a: &u8, b: &u8| a == b, |x: f64| x.abs().min(255.0) as u8, <u8>::MIN, <u8>::MAX),
+            1 => numtype!(ctx, rng, i8, "i8", |a: &i8, b: &i8| a == b, |x: f64| x.clamp(-128.0, 127.0) as i8, <i8>::MIN, <i8>::MAX),
+            2 => numtype!(ctx, rng, u16, "u16", |a: &u16, b: &u16| a == b, |x: f64| x.abs() as u16, <u16>::MIN, <u16>::MAX),
+            3 => numtype!(ctx, rng, i16, "i16", |a: &i16, b: &i16| a == b, |x: f64| x as i16, <i16>::MIN, <i16>::MAX),
+            4 => numtype!(ctx, rng, u32, "u32", |a: &u32, b: &u32| a == b, |x: f64| x.abs() as u32, <u32>::MIN, <u32>::MAX),
+            5 => numtype!(ctx, rng, i32, "i32", |a: &i32, b: &i32| a == b, |x: f64| x as i32, <i32>::MIN, <i32>::MAX),
+            6 => numtype!(ctx, rng, u64, "u64", |a: &u64, b: &u64| a == b, |x: f64| x.abs() as u64, <u64>::MIN, <u64>::MAX),
+            7 => numtype!(ctx, rng, i64, "i64", |a: &i64, b: &i64| a == b, |x: f64| x as i64, <i64>::MIN, <i64>::MAX),
+            8 => numtype!(ctx, rng, usize, "usize", |a: &usize, b: &usize| a == b, |x: f64| x.abs() as usize, <usize>::MIN, <usize>::MAX),
+            9 => numtype!(ctx, rng, isize, "isize", |a: &isize, b: &isize| a == b, |x: f64| x as isize, <isize>::MIN, <isize>::MAX),
+            10 => numtype!(ctx, rng, f32, "f32", |a: &f32, b: &f32| a.to_bits() == b.to_bits(), |x: f64| x as f32, <f32>::MIN, <f32>::MAX),
+            11 => numtype!(ctx, rng, f64, "f64", |a: &f64, b: &f64| a.to_bits() == b.to_bits(), |x: f64| x, <f64>::MIN, <f64>::MAX),
+            12 => numtype!(ctx, rng, Time, "Time<f32>", |a: &Time, b: &Time| a.value.to_bits() == b.value.to_bits(), |x: f64| Time::new::<second>(x as f32), Time::new::<second>(f32::MIN), Time::new::<second>(f32::MAX)),
+            _ => numtype!(ctx, rng, Frequency, "Frequency<f32>", |a: &Frequency, b: &Frequency| a.value.to_bits() == b.value.to_bits(), |x: f64| Frequency::new::<hertz>(x as f32), Frequency::new::<hertz>(f32::MIN), Frequency::new::<hertz>(f32::MAX)),
         }
         if ctx.index % 100_003 == 0 {
             ctx.sample(|| jobj(&[("note", jstr("element kinds: decimal literals in every spelling, keywords MIN/MAX/DEF/UP/DOWN in short/long form and random case, near misses (MAXI, DEFA, UPP...), literals on/next to the bounds, non-numeric elements; bounds incl. min==max, default present/absent"))]));
